@@ -1694,36 +1694,63 @@ func rulePortClosedByItsWriter(c *Ctx) {
 		// who sends on the port's channel?
 		var others []*ssa.Function
 		own := 0
-		var visit func(f *ssa.Function, ch ssa.Value, depth int)
-		visit = func(f *ssa.Function, ch ssa.Value, depth int) {
-			if depth > 3 || ch.Referrers() == nil {
+		var visit func(f *ssa.Function, ch ssa.Value, depth int, other bool)
+		note := func(f *ssa.Function, other bool) {
+			if other {
+				others = append(others, f)
+			} else {
+				own++
+			}
+		}
+		startedByGo := func(mc *ssa.MakeClosure) bool {
+			if mc.Referrers() == nil {
+				return true
+			}
+			for _, r := range *mc.Referrers() {
+				if g, isGo := r.(*ssa.Go); isGo && g.Call.Value == ssa.Value(mc) {
+					return true
+				}
+			}
+			return false
+		}
+		visit = func(f *ssa.Function, ch ssa.Value, depth int, other bool) {
+			if depth > 4 || ch.Referrers() == nil {
 				return
 			}
 			for _, r := range *ch.Referrers() {
 				switch x := r.(type) {
 				case *ssa.Send:
 					if x.Chan == ch {
-						if f == fn {
-							own++
-						} else {
-							others = append(others, f)
-						}
+						note(f, other)
 					}
 				case *ssa.Select:
 					for _, st := range x.States {
 						if st.Chan == ch && st.Dir == types.SendOnly {
-							if f == fn {
-								own++
-							} else {
-								others = append(others, f)
-							}
+							note(f, other)
 						}
 					}
 				case *ssa.MakeClosure:
 					cf := x.Fn.(*ssa.Function)
 					for i, bnd := range x.Bindings {
 						if bnd == ch && i < len(cf.FreeVars) {
-							visit(cf, cf.FreeVars[i], depth+1)
+							visit(cf, cf.FreeVars[i], depth+1, other || startedByGo(x))
+						}
+					}
+				case ssa.CallInstruction:
+					// handed to a helper: a plain (or deferred) call runs in this goroutine, a go statement starts another
+					callee := x.Common().StaticCallee()
+					if callee == nil || len(callee.Blocks) == 0 || !c.P.OwnedFunc(callee) {
+						continue
+					}
+					_, isGo := x.(*ssa.Go)
+					args := x.Common().Args
+					off := 0
+					if callee.Signature.Recv() != nil {
+						off = 0 // receiver is Params[0] and Args[0] alike
+					}
+					for i, a := range args {
+						if a == ch && i+off < len(callee.Params) {
+							visit(callee, callee.Params[i+off], depth+1, other || isGo)
 						}
 					}
 				case *ssa.Store:
@@ -1736,24 +1763,26 @@ func rulePortClosedByItsWriter(c *Ctx) {
 									if bnd == a && i < len(cf.FreeVars) && cf.FreeVars[i].Referrers() != nil {
 										for _, r3 := range *cf.FreeVars[i].Referrers() {
 											if ld, isLd := r3.(*ssa.UnOp); isLd && ld.Op == token.MUL {
-												visit(cf, ld, depth+1)
+												visit(cf, ld, depth+1, other || startedByGo(mc))
 											}
 										}
 									}
 								}
 							}
 							if ld, isLd := rr.(*ssa.UnOp); isLd && ld.Op == token.MUL {
-								visit(f, ld, depth+1)
+								visit(f, ld, depth+1, other)
 							}
 						}
 					}
-				case *ssa.Phi, *ssa.ChangeType:
-					visit(f, x.(ssa.Value), depth+1)
+				case *ssa.Phi:
+					visit(f, x, depth+1, other)
+				case *ssa.ChangeType:
+					visit(f, x, depth+1, other)
 				}
 			}
 		}
 		for _, ch := range sendChans {
-			visit(fn, ch, 0)
+			visit(fn, ch, 0, false)
 		}
 		if len(others) == 0 {
 			c.Check(own > 0, "R15.10", key, pos, fmt.Sprintf("the goroutine that closes the port makes all %d send(s) to it itself", own), "no send to the port's channel found")
